@@ -193,7 +193,7 @@ func c10Validate(in c10Input) error {
 	if in.Interval < 1 || in.Interval > 1000 {
 		return fmt.Errorf("interval out of range")
 	}
-	nsub, closed := 0, false
+	nsub := 0
 	for s, op := range in.Ops {
 		switch op.Op {
 		case "sub":
@@ -207,11 +207,7 @@ func c10Validate(in c10Input) error {
 			if op.I < 0 || op.I >= nsub {
 				return fmt.Errorf("step %d: subscriber index out of range", s)
 			}
-		case "close":
-			if closed {
-				return fmt.Errorf("step %d: second close", s)
-			}
-			closed = true
+		case "close": // any number of Close calls, each from its own goroutine
 		default:
 			return fmt.Errorf("step %d: unknown op %q", s, op.Op)
 		}
